@@ -21,22 +21,38 @@ func (m *Model) RunOrderings(s *Sink, rule string) {
 		s.Undecided(rule, key, "-", "token.Position.Contains(line, col) not found")
 		return
 	}
-	// comparison-only?
-	for _, b := range fn.Blocks {
-		for _, in := range b.Instrs {
-			switch x := in.(type) {
-			case *ssa.BinOp:
-				switch x.Op {
-				case token.LSS, token.LEQ, token.GTR, token.GEQ, token.EQL, token.NEQ:
-				default:
-					s.Undecided(rule, key, m.InstrPos(in), "Contains performs arithmetic (%s) on its inputs; the finite-orderings argument only covers functions that compare them", x.Op)
-					return
+	// comparison-only? (the function and the module helpers it calls: only comparisons of its inputs, no arithmetic,
+	// no library calls — then its result depends only on the relative order of the six numbers)
+	var cmpOnly func(f *ssa.Function, depth int) (bool, string)
+	cmpOnly = func(f *ssa.Function, depth int) (bool, string) {
+		if f.Blocks == nil || depth > 3 {
+			return false, "a callee without a body (or too deep)"
+		}
+		for _, b := range f.Blocks {
+			for _, in := range b.Instrs {
+				switch x := in.(type) {
+				case *ssa.BinOp:
+					switch x.Op {
+					case token.LSS, token.LEQ, token.GTR, token.GEQ, token.EQL, token.NEQ:
+					default:
+						return false, fmt.Sprintf("arithmetic (%s) at %s", x.Op, m.InstrPos(in))
+					}
+				case *ssa.Call:
+					sc := x.Call.StaticCallee()
+					if sc == nil || !m.InModule(sc) {
+						return false, "a call outside the module at " + m.InstrPos(in)
+					}
+					if ok, why := cmpOnly(sc, depth+1); !ok {
+						return false, why
+					}
 				}
-			case *ssa.Call:
-				s.Undecided(rule, key, m.InstrPos(in), "Contains calls another function; the finite-orderings argument does not apply")
-				return
 			}
 		}
+		return true, ""
+	}
+	if ok, why := cmpOnly(fn, 0); !ok {
+		s.Undecided(rule, key, m.Pos(fn.Pos()), "Contains is not comparison-only (%s): the finite-orderings argument only covers functions that compare their inputs", why)
+		return
 	}
 	fields := map[string]int64{}
 	mismatch := ""
